@@ -11,7 +11,7 @@ Eval vm_compute in ("cex"%string,
              let ops := map Bit (fst c) ++ tail in
              [(map enc_op ops,
                enc_ps (omap (fun os => last os (Ok None)) (outs frame_machine [] ops)),
-               enc_ps (omap (fun os => last os (Ok None)) (outs (ps2_machine syn_ps2) (Ps2Decoder_mk 0 0) ops)))]
+               enc_ps (ps_at_init syn_ps2 Panic (fun s0 => omap (fun os => last os (Ok None)) (outs (ps2_machine syn_ps2) s0 ops))))]
          | None => []
          end)
       (firstn 6 (open_C06 syn_ps2))).
